@@ -220,6 +220,28 @@ pub fn deep_recursion_case(depth: usize, scoped: bool) -> Case {
     Case { req: format!("c04 {} - 400000", t.join(";")), in_domain: true, nontrivial: true, tags: vec!["deep-recursion", "fn", "return"] }
 }
 
+/// a function that calls itself from inside the TAKEN branch of an if / else block; the inner call takes
+/// the else branch and runs through the block's `end` while the outer call is still inside its branch
+pub fn recursion_inside_branch_case(scoped: bool, levels: usize) -> Case {
+    let e = |s: &str| s.to_string();
+    let mut t = vec![e("B3"), e("D"), enc_str("fn"), if scoped { e("1") } else { e("0") }, enc_str("desc"), e("B2")];
+    t.extend(line(None, "emit", &[e("start"), e("${1}")]));
+    t.push(e("I")); t.push(enc_str("if")); t.push(enc_list(&[e("lt"), e("${1}"), levels.to_string()]));
+    t.push(e("B3"));
+    t.extend(line(Some("m"), "inc", &[e("${1}")]));
+    t.extend(line(Some("r"), "desc", &[e("${m}")]));
+    t.extend(line(None, "emit", &[e("back"), e("${1}")]));
+    t.push(e("E0"));
+    t.push(format!("X{}", enc_str("else")));
+    t.push(e("B1"));
+    t.extend(line(None, "emit", &[e("else"), e("${1}")]));
+    t.push(enc_str("end"));
+    t.push(enc_str("end"));
+    t.extend(line(Some("x"), "desc", &[e("0")]));
+    t.extend(line(None, "emit", &[e("done")]));
+    Case { req: format!("c04 {} - 4000", t.join(";")), in_domain: true, nontrivial: true, tags: vec!["recursion-inside-branch", "fn"] }
+}
+
 impl Prop for C05Prop {
     fn id(&self) -> &'static str {
         "C05"
@@ -229,7 +251,7 @@ impl Prop for C05Prop {
     }
     fn fixed_cases(&self, _tier: Tier) -> Vec<Case> {
         // thresholds of the scope stack / the function call stack
-        vec![deep_recursion_case(40, true), deep_recursion_case(150, true), deep_recursion_case(260, true), deep_recursion_case(260, false), deep_recursion_case(1100, true)]
+        vec![recursion_inside_branch_case(false, 1), recursion_inside_branch_case(false, 3), recursion_inside_branch_case(true, 2), deep_recursion_case(40, true), deep_recursion_case(150, true), deep_recursion_case(260, true), deep_recursion_case(260, false), deep_recursion_case(1100, true)]
     }
     fn budget(&self, tier: Tier) -> usize {
         match tier {
